@@ -160,7 +160,16 @@ func startWorker() (*worker, error) {
 		return nil, err
 	}
 	cmd := exec.Command(os.Args[0], "-test.run", "^$")
-	cmd.Env = append(os.Environ(), "C09_WORKER=1", "C09_SCRATCH="+scratch, "GOTRACEBACK=single", "VERIF_EV_OUT=", "VERIF_REPLAY=")
+	// The verifier under test spin-waits in every one of its goroutines; a few OS threads give
+	// real parallelism without 16 spinning threads per shard on a 16-core machine.
+	procs := "4"
+	if h.Tier() == "thorough" {
+		procs = "8"
+	}
+	if v := os.Getenv("C09_WORKER_PROCS"); v != "" {
+		procs = v
+	}
+	cmd.Env = append(os.Environ(), "C09_WORKER=1", "C09_SCRATCH="+scratch, "GOTRACEBACK=single", "VERIF_EV_OUT=", "VERIF_REPLAY=", "GOMAXPROCS="+procs)
 	cmd.ExtraFiles = []*os.File{pw}
 	w := &worker{cmd: cmd, out: &tailBuf{}, scratch: scratch, resFile: pr}
 	cmd.Stdout = w.out
@@ -324,7 +333,15 @@ func harnessFatal(msg string) {
 }
 
 func runCase(c Case, x *h.Ctx) {
+	t0 := time.Now()
 	res, d, err := runInWorker(c)
+	if os.Getenv("C09_TIMING") != "" {
+		n := 0
+		for _, b := range c.Blocks {
+			n += len(b)
+		}
+		fmt.Printf("C09-TIMING %v blocks=%d txs=%d\n", time.Since(t0), len(c.Blocks), n)
+	}
 	if err != nil {
 		harnessFatal(err.Error())
 	}
